@@ -671,6 +671,10 @@ def evaluate_payload_template(input, context, template):
         and the "asl_intrinsic_" prefix mitigates the risk of the supplied value
         executing an arbitrary function, so disable semgrep warning.
         """
+        # Only names with the States. prefix may select a handler, otherwise a
+        # name such as "arglist" or "input" would look up an arbitrary local.
+        if not func.startswith("States."):
+            normalised_func = "asl_intrinsic_Default"
         # nosemgrep
         return locals().get(
             normalised_func,
